@@ -25,7 +25,7 @@ type c01Pod struct {
 
 type c01Node struct {
 	Label string   `json:"label_k"` // "", a, b
-	Taint string   `json:"taint"`   // "", NS-dedicated, NE-dedicated, NS-other, PNS-other, NE-notready
+	Taint string   `json:"taint"`   // "", NS-dedicated, NE-dedicated, NS-other, PNS-other, NE-notready, two-taint lists in both orders
 	Pods  []c01Pod `json:"pods"`
 }
 
@@ -96,6 +96,10 @@ func c01NodeObj(name string, n c01Node) *corev1.Node {
 		o.Spec.Taints = []corev1.Taint{{Key: "other", Value: "x", Effect: corev1.TaintEffectPreferNoSchedule}}
 	case "NE-notready":
 		o.Spec.Taints = []corev1.Taint{{Key: "node.kubernetes.io/not-ready", Effect: corev1.TaintEffectNoExecute}}
+	case "NS-dedicated+NE-notready": // an untolerated taint followed by a tolerated one, and the reverse order
+		o.Spec.Taints = []corev1.Taint{{Key: "dedicated", Value: "x", Effect: corev1.TaintEffectNoSchedule}, {Key: "node.kubernetes.io/not-ready", Effect: corev1.TaintEffectNoExecute}}
+	case "NE-notready+NS-dedicated":
+		o.Spec.Taints = []corev1.Taint{{Key: "node.kubernetes.io/not-ready", Effect: corev1.TaintEffectNoExecute}, {Key: "dedicated", Value: "x", Effect: corev1.TaintEffectNoSchedule}}
 	}
 	return o
 }
@@ -230,7 +234,7 @@ func c01PodLayouts(full bool) [][]c01Pod {
 
 func c01Lattice(t *testing.T, run *h.Run) {
 	labels := []string{"", "a", "b"}
-	taints := []string{"", "NS-dedicated", "NE-dedicated", "NS-other", "PNS-other", "NE-notready"}
+	taints := []string{"", "NS-dedicated", "NE-dedicated", "NS-other", "PNS-other", "NE-notready", "NS-dedicated+NE-notready", "NE-notready+NS-dedicated"}
 	roles := []string{"active", "active-canarylist", "canary-in", "canary-out", "unknown"}
 	var cases []c01Case
 	full := c01PodLayouts(true)
